@@ -331,14 +331,18 @@ def run(ctx):
     units = []
     budget = 60 if ctx.quick else 300
     for name in names:
-        sel = fam.select(pool, 10 if ctx.quick else 60, ctx.seed + 17, name) + small[:3]
-        units.append(('limit', name, list(dict.fromkeys(sel)), ctx.seed, budget * 2, 40 if ctx.quick else 120))
-    time_logics = ['CPL', 'FDE', 'K3', 'K', 'S4', 'S5FDE', 'D', 'KK3WQ'] if ctx.quick else names
+        sel = fam.select(pool, 10 if ctx.quick else 30, ctx.seed + 17, name) + small[:3]
+        units.append(('limit', name, list(dict.fromkeys(sel)), ctx.seed, budget * 2, 40 if ctx.quick else 80))
+    time_logics = ['CPL', 'FDE', 'K3', 'K', 'S4', 'S5FDE', 'D', 'KK3WQ']
+    if not ctx.quick:
+        time_logics = list(dict.fromkeys(time_logics + names[::3]))
     for name in time_logics:
         units.append(('time', name, small[:4] if ctx.quick else small, ctx.seed, budget * 2, 2500))
         # the same with countermodels requested (invalid arguments with one / two open branches)
         units.append(('time', name, ['b:a', 'b:Aab'], ctx.seed, budget * 2, (2500, True)))
-    life_logics = ['CPL', 'FDE', 'K', 'S5', 'D', 'GO', 'CFOL', 'KLP'] if ctx.quick else names
+    life_logics = ['CPL', 'FDE', 'K', 'S5', 'D', 'GO', 'CFOL', 'KLP']
+    if not ctx.quick:
+        life_logics = list(dict.fromkeys(life_logics + names[1::4]))
     for name in life_logics:
         for with_arg in (True, False):
             units.append(('life', name, ['b:Aab:Na', 'Ma:LMa'] if with_arg else ['a'], ctx.seed,
@@ -372,7 +376,7 @@ def run(ctx):
         states=paths, transitions=trans, traces_validated_against_impl=0,
         samples=list(kinds.values())[:3], units=nunits,
         bounds=dict(step_limit='k over all integers, one class per prefix; 13 arguments per logic (quick), '
-                               'proofs of natural length <= 40 (quick) / 120 steps',
+                               'proofs of natural length <= 40 (quick) / 80 steps; thorough: 33 arguments per logic',
                     time_limit='T over all integers; clock = arbitrary non-decreasing instants; '
                                f'{len(time_logics)} logics x small arguments, without and with countermodels '
                                '(with: some schedule must raise the timeout inside finish())',
